@@ -1,5 +1,7 @@
 """Rule-instance bookkeeping, floors, known findings, evidence and exit codes."""
 import json
+
+from .core import AnalysisError
 import os
 import time
 
@@ -61,13 +63,20 @@ class Report:
             # run the lender once, capturing everything it records; later borrows from the same lender replay the capture
             captured, floors = [], {}
             self._capture = (captured, floors)
+            lender_error = None
             try:
                 with self.borrow({}):
                     module.run(repo, self)
+            except AnalysisError as ex:
+                # the lender could not finish (one of ITS anchors is gone on this tree): what it recorded up to that point is kept; a borrow
+                # that finds none of its rules among it fails as analysis-broken, any other borrow is decided on what was recorded
+                lender_error = ex
             finally:
                 self._capture = None
-            cache[key] = (captured, floors)
-        captured, floors = cache[key]
+            cache[key] = (captured, floors, lender_error)
+        captured, floors, lender_error = cache[key]
+        if lender_error is not None and not any(rule in mapping for _, rule, _, _, _ in captured):
+            raise lender_error
         sites = tuple(only_sites) if only_sites else None
         for status, rule, site, construct, detail in captured:
             if rule in mapping and (not sites or any((site == x[1:]) if x.startswith("=") else (x in site) for x in sites)):
